@@ -484,7 +484,7 @@ package priority
 //@     invariant [*] 0 <= kept && kept <= $i
 //@     invariant [* C17] forall a :: 0 <= a && a < kept ==> priorities[a] != removed
 //@     invariant [* C17] forall a :: 0 <= a && a < kept ==> (exists b :: 0 <= b && b < $i && priorities[a] == oldat(priorities, b))
-//@     invariant [C17 C15] forall b :: (0 <= b && b < $i && oldat(priorities, b) != removed) ==> (exists a :: 0 <= a && a < kept && priorities[a] == oldat(priorities, b))
+//@     invariant [C17 C15] all-others-are-kept-so-far: forall b :: (0 <= b && b < $i && oldat(priorities, b) != removed) ==> (exists a :: 0 <= a && a < kept && priorities[a] == oldat(priorities, b))
 //@     invariant [* C17] forall a, b :: 0 <= a && a < b && b < kept ==> priorities[a] > priorities[b]
 //@     invariant [* C17] forall a, j :: 0 <= a && a < kept && $i <= j && j < len(priorities) ==> priorities[a] > oldat(priorities, j)
 //@     invariant [* C17] forall j :: $i <= j && j < len(priorities) ==> priorities[j] == oldat(priorities, j)
